@@ -159,6 +159,7 @@ fn main() {
         "c01-one" => posprops::replay_one(Which::C01, &arg(&args, "--fen").unwrap()),
         "c02-one" => posprops::replay_one(Which::C02, &arg(&args, "--fen").unwrap()),
         "c17-trace-one" => posprops::replay_trace_one(&arg(&args, "--fen").unwrap()),
+        "c17-exam-one" => posprops::replay_exam_one(&arg(&args, "--fen").unwrap(), &arg(&args, "--node").unwrap(), arg(&args, "--cap").and_then(|c| c.parse().ok()).unwrap_or(800)),
         "c17-one" => posprops::replay_one(Which::C17, &arg(&args, "--fen").unwrap()),
         other => {
             eprintln!("unknown command {:?}", other);
